@@ -1809,7 +1809,38 @@ func (m *Monitor) checkC19(g *Gen, w []string, out string, b, a *snapshot) {
 	if sumComm.Cmp(totalCommHub) > 0 {
 		m.report(g, "commission-payouts-exceed-collected", fmt.Sprintf("paid %s collected %s", sumComm, totalCommHub))
 	}
-	// proportionality: payout_i * P <= total * p_i < (payout_i + 1) * P over the minter signer set
+	// proportionality: every validator with a Minter key gets its share of the commission by bonded voting power
+	// (staking power, not whatever the signer-set normalisation made of it), up to the truncations of the two divisions
+	{
+		valExt, _, _ := m.keysOf(g, "minter")
+		pw := map[string]*big.Int{} // lower(external address) -> staking power
+		totalP := new(big.Int)
+		for _, v := range g.env.staking.vals {
+			ext, ok := valExt[fmt.Sprintf("%x", []byte(v.addr))]
+			if !v.bonded || !ok || v.power <= 0 {
+				continue
+			}
+			pw[strings.ToLower(ext)] = big.NewInt(v.power)
+			totalP.Add(totalP, big.NewInt(v.power))
+		}
+		totalCommMinter := conv(18, mt.dec, totalCommHub)
+		if totalP.Sign() > 0 && totalCommMinter.Sign() > 0 {
+			tol := new(big.Int).Div(totalCommMinter, big.NewInt(1000000))
+			tol.Add(tol, big.NewInt(2))
+			for _, s := range commOut {
+				p := pw[strings.ToLower(s.recipient)]
+				if p == nil {
+					m.report(g, "commission-paid-to-a-non-validator", fmt.Sprintf("recipient %s amount %s", s.recipient, s.amount))
+					continue
+				}
+				want := new(big.Int).Div(new(big.Int).Mul(totalCommMinter, p), totalP)
+				if d := new(big.Int).Abs(new(big.Int).Sub(s.amount, want)); d.Cmp(tol) > 0 {
+					m.report(g, "commission-share-not-proportional-to-power", fmt.Sprintf("validator key %s holds %s of %s bonded power with a Minter key: its share of the commission %s is %s, paid %s",
+						s.recipient, p, totalP, totalCommMinter, want, s.amount))
+				}
+			}
+		}
+	}
 	sumFee := big.NewInt(0)
 	reimb := big.NewInt(0)
 	for i, s := range feeOut {
@@ -2340,7 +2371,13 @@ func (m *Monitor) checkC15(g *Gen, w []string, out string) {
 	if m.gAfter && m.gBefore != nil {
 		if prev, ok := m.gBefore[key]; ok && prev != out {
 			for _, cls := range diffGenesisSection(w[1:], prev, out) {
-				m.report(g, "lost:"+cls, fmt.Sprintf("section %q before export: %.300s | after import: %.300s", key, prev, out))
+				// "lost": the section comes back empty (never written by ExportGenesis: the known findings); "altered": it
+				// comes back, but not as it was
+				kind := "lost:"
+				if f := strings.Fields(out); len(f) > 1 && (cls == "unbatched-pool" || cls == "batches" || cls == "signer-set-txs" || cls == "confirmations") {
+					kind = "altered:"
+				}
+				m.report(g, kind+cls, fmt.Sprintf("section %q before export: %.300s | after import: %.300s", key, prev, out))
 			}
 		}
 	}
